@@ -126,6 +126,10 @@ func c03Names(b *c03Box) (hostile []c03Name, control []string) {
 	add("non-ascii", "älice", "alice")
 	add("non-ascii", "аlice", "alice") // cyrillic а
 	add("non-ascii", "alice​", "alice")
+	// characters that Unicode simple case folding / digit classes map onto the ASCII grammar
+	for _, n := range []string{"\u017fam", "\u212aim", "alice\u017f", "a\u212a", "\u017f", "\u212a", "\uff41lice", "\uff21", "\u0663user", "bob\u0660", "\u0131d", "\u0130D"} {
+		add("unicode-lookalike", n, "alice")
+	}
 	add("special-chars", "al:ice", "alice")
 	add("special-chars", "alice:", "alice")
 	add("special-chars", "al*ce", "alice")
